@@ -69,6 +69,23 @@ def tolerance_gate(r: R, chk, rule_prefix: str = ""):
                 if "tolerance" in names and names & fit_targets:
                     gates.append(g)
     chk.floor("GATE-TOL", "tolerance comparison guarding a ValueError in update", len(gates), 1)
+    # the refusal is `error > tolerance`: an error EQUAL to the tolerance is within it — with exact data the error of a removable
+    # knot is exactly 0, and tolerance = 0 is a meaningful request
+    for g in gates:
+        for c in ast.walk(g[0].ast):
+            if isinstance(c, ast.Compare) and len(c.ops) == 1 and isinstance(c.ops[0], (ast.Gt, ast.GtE, ast.Lt, ast.LtE)):
+                names_l = {x.id for x in ast.walk(c.left) if isinstance(x, ast.Name)}
+                names_r = {x.id for x in ast.walk(c.comparators[0]) if isinstance(x, ast.Name)}
+                if not (("tolerance" in names_l | names_r) and (names_l | names_r) & fit_targets):
+                    continue
+                raising_when_true = g[1] == "f"  # the passing arm is the false arm: the test being true raises
+                op = c.ops[0]
+                err_left = bool(names_l & fit_targets)
+                # raise iff error > tolerance:  (error > tol) true raises; (tol < error) true raises; (error <= tol) false raises; (tol >= error) false raises
+                strict_ok = (raising_when_true and ((err_left and isinstance(op, ast.Gt)) or (not err_left and isinstance(op, ast.Lt)))) or (not raising_when_true and ((err_left and isinstance(op, ast.LtE)) or (not err_left and isinstance(op, ast.GtE))))
+                chk.ob("GATE-TOL", f"{UPDATE}: `{seg(c, 40)}` refuses only an error strictly above the tolerance", strict_ok, loc=r.loc(ctx, c),
+                       detail="" if strict_ok else f"{UPDATE}: `{seg(c, 40)}` also refuses an error equal to the tolerance: with exact (Fraction) data the error of a removable knot / degree is exactly 0, so knot_remove / degree_decrease with tolerance=0 raise, and knot_clean / degree_clean with tolerance=0 silently leave what is exactly removable",
+                       func=UPDATE, construct="tolerance comparison not strict")
     writes = r.write_nodes(ctx, 0)
     from .c08 import path_facts
 
